@@ -354,6 +354,10 @@ pub fn check_ts_tcp(
     from_client: bool,
     ts_val: u32,
 ) -> (Option<ObservableUptime>, Option<ObservableUptime>) {
+    #[cfg(feature = "verif-hooks")]
+    if let Some(tracker) = verif_hooks::tracker_override() {
+        return tracker(connection_tracker, connection, from_client, ts_val);
+    }
     // Create a key that identifies this endpoint's timestamps
     // Client and server timestamps are tracked separately
     let tracking_key = ConnectionKey { connection: connection.clone(), is_client: from_client };
@@ -549,6 +553,27 @@ pub mod verif_hooks {
         } else {
             None
         }
+    }
+
+    /// Replacement for `check_ts_tcp` installed by a harness (a recorder of its arguments), active
+    /// in the model checker and in the native replay alike (per thread).
+    pub type Tracker = fn(
+        &mut TtlCache<ConnectionKey, TcpTimestamp>,
+        &Connection,
+        bool,
+        u32,
+    ) -> (Option<ObservableUptime>, Option<ObservableUptime>);
+
+    thread_local! {
+        static TRACKER_OVERRIDE: std::cell::Cell<Option<Tracker>> = const { std::cell::Cell::new(None) };
+    }
+
+    pub fn set_tracker_override(tracker: Option<Tracker>) {
+        TRACKER_OVERRIDE.with(|t| t.set(tracker));
+    }
+
+    pub(super) fn tracker_override() -> Option<Tracker> {
+        TRACKER_OVERRIDE.with(|t| t.get())
     }
 
     pub fn unix_time_ms() -> Option<u64> {
